@@ -379,9 +379,14 @@ func zzSplit(fs filesystem.Filespace, dir string, l zzLayer, how int) {
 	case 2:
 		put(dir+"/m.tmpl", first)
 		put(dir+"/z/x.tmpl", second)
-	default:
+	case 3:
 		put(dir+"/a/x.tmpl", first)
 		put(dir+"/z/deep/x.tmpl", second)
+	default:
+		// a sub-directory whose name starts with a dot is a directory like
+		// any other (only the entries "." and ".." are not walked)
+		put(dir+"/m.tmpl", first)
+		put(dir+"/.p/x.tmpl", second)
 	}
 }
 
@@ -397,9 +402,9 @@ func ZZVerifC19TextTree() {
 	layout[1], layout[2] = "L-b", "L-c"
 	viewV[2], viewV[3] = "V-c", "V-d"
 	viewW[3], viewW[0] = "W-d", "W-a"
-	zzSplit(fs, "helpers", helper, nd.Choose("helper-split", 4))
-	zzSplit(fs, "layouts/L", layout, nd.Choose("layout-split", 4))
-	zzSplit(fs, "views/v", viewV, nd.Choose("view-split", 4))
+	zzSplit(fs, "helpers", helper, nd.Choose("helper-split", 5))
+	zzSplit(fs, "layouts/L", layout, nd.Choose("layout-split", 5))
+	zzSplit(fs, "views/v", viewV, nd.Choose("view-split", 5))
 	zzSplit(fs, "views/w", viewW, 0)
 	cached := nd.Choose("cached", 2) == 1
 	p := NewProvider(fs, "helpers", "layouts/{name}", "views/{name}", ".tmpl", nil, cached)
